@@ -14,11 +14,11 @@ theorem sendAll_running {α : Type} (n : Nat) (frames : List α) :
     simp [h, this]
 
 theorem serveLinesF_stopped (T : Tables) (L : Lib J) (d : Disp σ J) (n : Nat) (st : σ) (ls : List Bytes) :
-    serveLinesF T L d ⟨n, false⟩ st ls = ⟨[], st, ⟨n, false⟩, 0⟩ := by
+    serveLinesF T L d ⟨n, false⟩ st ls = ⟨[], st, ⟨n, false⟩, 0, none⟩ := by
   cases ls <;> simp [serveLinesF]
 
 theorem serveF_stopped (T : Tables) (L : Lib J) (d : Disp σ J) (n : Nat) (buf : Bytes) (st : σ) (cs : List Bytes) :
-    serveF T L d ⟨n, false⟩ buf st cs = ⟨[], st, ⟨n, false⟩, 0⟩ := by
+    serveF T L d ⟨n, false⟩ buf st cs = ⟨[], st, ⟨n, false⟩, 0, none⟩ := by
   cases cs <;> simp [serveF]
 
 /-- number of frames sent while the lines are processed with a socket that never fails -/
@@ -36,16 +36,17 @@ theorem serveLinesF_spec (T : Tables) (L : Lib J) (d : Disp σ J) :
       ∧ r.st = stateAfter T L d st (ls.take r.done)
       ∧ (frameCount T L d st ls ≤ n → r.done = ls.length ∧ r.sock = ⟨n - frameCount T L d st ls, true⟩)
       ∧ (n < frameCount T L d st ls → r.sock = ⟨0, false⟩)
+      ∧ r.torn = (serveLines T L d st ls).1[n]?
   | [], n, st => by simp [serveLinesF, serveLines, stateAfter, frameCount]
   | l :: ls, n, st => by
     simp only [serveLinesF, Bool.not_true, Bool.false_eq_true, ↓reduceIte, sendAll_running, serveLines, frameCount,
       List.length_append]
     by_cases h : (handleLine T L d st l).1.length ≤ n
     · -- all frames of this line are delivered: go on with the rest
-      obtain ⟨h1, h2, h3, h4, h5⟩ := serveLinesF_spec T L d ls (n - (handleLine T L d st l).1.length) (handleLine T L d st l).2
+      obtain ⟨h1, h2, h3, h4, h5, h6⟩ := serveLinesF_spec T L d ls (n - (handleLine T L d st l).1.length) (handleLine T L d st l).2
       simp only [h, decide_true]
       simp only [frameCount] at h4 h5
-      refine ⟨?_, by simp only [List.length_cons]; omega, ?_, ?_, ?_⟩
+      refine ⟨?_, by simp only [List.length_cons]; omega, ?_, ?_, ?_, ?_⟩
       · rw [List.take_append, h1, List.take_of_length_le h]
       · simp only [List.take_succ_cons, stateAfter]; exact h3
       · intro hle
@@ -54,21 +55,25 @@ theorem serveLinesF_spec (T : Tables) (L : Lib J) (d : Disp σ J) :
         rw [e2]; congr 1; omega
       · intro hlt
         exact h5 (by omega)
+      · rw [h6, List.getElem?_append_right h]
+        simp [tornOf, List.getElem?_eq_none h]
     · -- the socket fails while this line is processed: the line is finished, nothing more is done
       have hz : n - (handleLine T L d st l).1.length = 0 := by omega
       simp only [h, decide_false, serveLinesF_stopped, hz]
-      refine ⟨?_, by simp, ?_, ?_, ?_⟩
+      refine ⟨?_, by simp, ?_, ?_, ?_, ?_⟩
       · rw [List.take_append]; simp [hz]
       · simp [stateAfter]
       · intro hle; omega
       · intro _; trivial
+      · rw [List.getElem?_append_left (by omega)]
+        simp [tornOf]
 
 theorem serveLinesF_append (T : Tables) (L : Lib J) (d : Disp σ J) :
     ∀ (l1 l2 : List Bytes) (s : SockSt) (st : σ),
       serveLinesF T L d s st (l1 ++ l2) =
         let r1 := serveLinesF T L d s st l1
         let r2 := serveLinesF T L d r1.sock r1.st l2
-        ⟨r1.outs ++ r2.outs, r2.st, r2.sock, r1.done + r2.done⟩
+        ⟨r1.outs ++ r2.outs, r2.st, r2.sock, r1.done + r2.done, r1.torn.or r2.torn⟩
   | [], l2, s, st => by simp [serveLinesF]
   | l :: l1, l2, s, st => by
     obtain ⟨n, run⟩ := s
@@ -77,7 +82,7 @@ theorem serveLinesF_append (T : Tables) (L : Lib J) (d : Disp σ J) :
     | true =>
       simp only [List.cons_append, serveLinesF, Bool.not_true, Bool.false_eq_true, ↓reduceIte,
         serveLinesF_append T L d l1 l2]
-      simp [List.append_assoc, Nat.add_assoc, Nat.add_comm]
+      simp [List.append_assoc, Nat.add_assoc, Nat.add_comm, Option.or_assoc]
 
 /-- the chunked loop with a failing socket is the line loop over all lines of all chunks -/
 theorem serveF_eq_serveLinesF (T : Tables) (L : Lib J) (d : Disp σ J) :
